@@ -132,6 +132,9 @@ type JSONOpts struct {
 	WS       bool // inter-token whitespace
 	MaxDepth int
 	Nulls    bool
+	// SingleKey: every object has at most one key, so that encoders which walk
+	// maps in hash order (encoding/gob) produce the same bytes on every run.
+	SingleKey bool
 }
 
 func jsonQuote(s string) string {
@@ -184,6 +187,9 @@ func genJSONObj(t *Tape, b *strings.Builder, o JSONOpts, depth int, nonEmpty boo
 	if nonEmpty && n == 0 {
 		n = 1
 	}
+	if o.SingleKey && n > 1 {
+		n = 1
+	}
 	used := map[string]bool{}
 	first := true
 	for i := 0; i < n; i++ {
@@ -230,6 +236,9 @@ func genJSONVal(t *Tape, b *strings.Builder, o JSONOpts, depth int) {
 	case 8:
 		b.WriteString("[")
 		n := t.Small(4)
+		if o.SingleKey {
+			n = t.Small(7)
+		}
 		for i := 0; i < n; i++ {
 			if i > 0 {
 				b.WriteString(",")
